@@ -861,8 +861,9 @@ def oracle_race(ctx, h, s, thr, state, rep, outcome):
         if new is None:
             ctx.fail(SIG_DESTROY, 'tile %r (entry %r) is gone after the requests' % (c, old), rep)
         elif new != old:
+            # two requests may have fetched the tile; an answer with authorize_stale is not stored over a stale tile
             ks = [k for k in covered.get(c, []) if outcome(k)[0] == 'ok' and outcome(k)[1]]
-            if not ks or new[0] != outcome.new_content(ks[-1]):
+            if not any(new[0] == outcome.new_content(k) for k in ks):
                 ctx.fail(SIG_DESTROY, 'tile %r changed from %r to %r without a successful cacheable upstream answer for it'
                          % (c, old, new), rep)
 
